@@ -188,8 +188,57 @@ def census():
     return bad
 
 
+def _e2e(lines, kind):
+    return [ln for ln in lines if ln.startswith(kind + " ")]
+
+
+def _skipped(ln):
+    return "| skip-env" in ln
+
+
+def e2e_post(lines, kind):
+    """Scenarios whose session could not be built (no loopback ports / machine stalled during setup)
+    observe nothing.  A few are tolerated and reported; more than max(3, 2 %) means the end-to-end tie
+    was not exercised: the check fails."""
+    e = _e2e(lines, kind)
+    sk = [ln for ln in e if _skipped(ln)]
+    if e and len(sk) > max(3, len(e) // 50):
+        return [("diff", sk[0], "diff e2e tie not exercised: %d of %d scenarios could not start (%s)"
+                 % (len(sk), len(e), sk[0].split("|", 1)[1].strip()))]
+    if not e:
+        return [("diff", kind, "diff e2e tie not exercised: the runner produced no %s scenario" % kind)]
+    return []
+
+
+def e2e_coverage(lines, kind):
+    e = _e2e(lines, kind)
+    recs = [t for ln in e for t in ln.split("|", 1)[1].split() if t.startswith("R;")]
+
+    def fld(t, k):
+        m = re.search(r";%s=([^;]*)" % k, t)
+        return m.group(1) if m else ""
+
+    nfr = [0 if fld(t, "fr") == "-" else len(fld(t, "fr").split(",")) for t in recs]
+    apis = {}
+    for t in recs:
+        apis[fld(t, "api")] = apis.get(fld(t, "api"), 0) + 1
+    return {
+        "e2e_scenarios": len(e),
+        "e2e_scenarios_not_started_env": sum(1 for ln in e if _skipped(ln)),
+        "e2e_logical_requests_judged": len(recs),
+        "e2e_request_frames_judged": sum(nfr),
+        "e2e_requests_with_more_than_one_frame": sum(1 for n in nfr if n > 1),
+        "e2e_requests_per_api": apis,
+        "e2e_requests_not_idempotent_with_speculative_policy": sum(
+            1 for t in recs if fld(t, "idem") == "0" and fld(t, "spec") != "-"),
+        "e2e_requests_idempotent_with_speculative_policy": sum(
+            1 for t in recs if fld(t, "idem") == "1" and fld(t, "spec") != "-"),
+        "e2e_requests_with_a_cut_connection": sum(1 for t in recs if "/drop" in t),
+    }
+
+
 def post(lines, verdicts):
-    return [("diff", "census " + b[:60], "diff census: " + b) for b in census()]
+    return [("diff", "census " + b[:60], "diff census: " + b) for b in census()] + e2e_post(lines, "E6")
 
 
 def extra_coverage(lines, verdicts):
@@ -198,6 +247,8 @@ def extra_coverage(lines, verdicts):
         case, _, obs = ln.partition("|")
         f = case.split()
         if not f:
+            continue
+        if f[0] == "E6":
             continue
         if f[0] == "F":
             o = obs.split()
@@ -214,7 +265,8 @@ def extra_coverage(lines, verdicts):
             "history_length_histogram": {str(k): v for k, v in sorted(lens.items())},
             "real_loop_trace_length_histogram": {str(k): v for k, v in sorted(tlens.items())},
             "real_loop_results": results,
-            "cases_per_policy": pols}
+            "cases_per_policy": pols,
+            **e2e_coverage(lines, "E6")}
 
 
 SPEC = {
@@ -234,9 +286,23 @@ SPEC = {
              "outcome stream of length <= 3 (quick) / 4 (thorough) over {conn-fail, success, 8 errors} x plan length "
              "0..3 x 4 consistencies x idempotent x 3 policies, plus seeded random streams (plan <= 5, length <= plan+4, "
              "half biased to retrying errors); events (target, consistency, error class, decision) and the result are "
-             "compared exactly with the model's fiber; non-trivial = every case except F cases with an empty plan or "
-             "an empty stream; distinct = distinct case lines"),
-    "nontrivial": lambda ln: not (ln.startswith("F ") and (len(ln.split("|")[0].split()) <= 5 or ln.split()[4] == "0")),
+             "compared exactly with the model's fiber; "
+             "E6 = end to end: one seeded scenario (260 quick / 2500 thorough / 600 in search rounds; the first 14 are "
+             "fixed shapes: statement not idempotent / idempotent x profile with a speculative policy / without, first "
+             "answer of every page delayed 300 ms and a success resp. Unavailable, through each of the 7 session APIs) = "
+             "a mock cluster of 2-4 nodes + one real Session + 3-9 logical requests through query_unpaged / "
+             "execute_unpaged / batch / query_single_page / execute_single_page / query_iter / execute_iter (1-3 pages), "
+             "idempotence flag, retry policy {Default, DowngradingConsistency, Fallthrough}, speculative policy {none, "
+             "Simple(max 1-3, 30 ms)} and consistency (incl. SERIAL / LOCAL_SERIAL) taken from the statement, from an own "
+             "execution profile or from the session's default profile; the mock answers the k-th frame of a page with the "
+             "k-th scripted outcome (ERROR frames of the C06 error domain, cut connection, delay, success); per logical "
+             "request and page the frames the mock received (node, consistency, arrival / answer instants, answer) and the "
+             "caller's result and coordinator must be accepted by the extracted checker e2e_check on a certificate the "
+             "driver proposes (plan + outcome stream per fiber); "
+             "non-trivial = every case except F cases with an empty plan or an empty stream and E6 scenarios that could "
+             "not start; distinct = distinct case lines"),
+    "nontrivial": lambda ln: not (ln.startswith("F ") and (len(ln.split("|")[0].split()) <= 5 or ln.split()[4] == "0"))
+    and not (ln.startswith("E6 ") and _skipped(ln)),
     "trusted_base": [
         "hook scylla::policies::retry::verif_retry::request_info (constructor of the non_exhaustive RequestInfo)",
         "hook scylla::client::verif_execution (scripted AttemptTarget + run_request_once closure around the real "
@@ -244,11 +310,18 @@ SPEC = {
         "the harness' recording RetryPolicy wrapper (delegates to the real session, logs error class / idempotence / consistency / decision)",
         "safe_errorb / named_unsafe_errorb are the error sets of the property text (pinned by C06_safe_set / C06_named_unsafe_set)",
         "census scanner in checks/c06.py (enum variant lists, control-flow skeleton of run_request_speculative_fiber)",
+        "e2e: vh::mocknode (scripted CQL mock cluster; one trace with one clock; an answer is logged before it is written) "
+        "and harness/src/e2e_attempts.rs (scenario generator, per-marker scripting handler, result / coordinator capture)",
+        "e2e: the OCaml driver only PROPOSES certificates (split into fibers, plan and outcome stream per fiber); acceptance "
+        "is decided by the extracted e2e_check, proved sound against fiber (C06_e2e_run, C06_e2e_gate, C06_e2e_fibers)",
     ],
     "assumptions": [
         "the outcome stream (connection acquisition results, attempt results) is an oracle: theorems quantify over every stream",
         "speculative execution runs several fibers, each with its own retry session (C13); C06_bound is per fiber; "
-        "the tie drives the single-fiber path (no speculative policy, no client timeout)",
+        "the hook tie (F) drives the single-fiber path; the e2e tie (E6) also runs idempotent requests with a speculative "
+        "policy and judges every fiber separately (which fiber's result must be returned is C13's subject)",
+        "e2e: a target skipped because its pool had no connection is invisible to the mock; the certificate may skip "
+        "only nodes whose connection the mock has cut before (scripted drop); client-side request timeout is off",
         "new_session is pure, so creating the session lazily at the first error equals creating it up front",
     ],
     "post": post,
